@@ -36,6 +36,13 @@ def body_id(content):
     return "?"
 
 
+# refusals as servers word them: every registered response code (RFC 5804 1.3), none, and a literal text
+NO_WIRES = [b'NO (QUOTA/MAXSIZE) "refused: {2} KiB over the {64} KiB limit"\r\n', b'NO "refused"\r\n',
+            b'NO (QUOTA/MAXSCRIPTS) "too many scripts"\r\n', b'NO (QUOTA) "quota"\r\n', b'NO (TRYLATER) "busy"\r\n',
+            b'NO (NONEXISTENT) "no such script"\r\n', b'NO (ALREADYEXISTS) "exists"\r\n', b'NO (ACTIVE) "active"\r\n',
+            b'NO {7}\r\nrefused\r\n', b'NO (WARNINGS) "line 1: OK?"\r\n', b'NO\r\n']
+
+
 class Double:
     """scripted ManageSieve server: a dict store + choices for what RFC 5804 leaves open + faults"""
 
@@ -44,6 +51,7 @@ class Double:
         self.active = active
         self.events = events
         self.fault = {}          # verb -> kind (first occurrence)
+        self.nocode = 0          # which wording a refusal takes
         self.choice = {"refuse": False, "enc": "q", "decor": "plain"}
 
     def ok(self):
@@ -77,14 +85,18 @@ class Double:
             elif verb == "RENAMESCRIPT" and len(args) > 1:
                 b = args[1].decode("utf-8", "replace")
             self.events.append(["cmd", verb, a, b])
-            kind = self.fault.pop(verb, None)
+            kind = self.fault.get(verb)
+            if kind == "NOSTICKY":
+                kind = "NO"              # and stays in force for every later command of this verb
+            else:
+                self.fault.pop(verb, None)
             if kind is None and self.choice["refuse"] and verb in ("PUTSCRIPT", "HAVESPACE", "CHECKSCRIPT"):
                 kind = "NO"
             if kind in ("NO", "BYE", "silence"):
                 st = "NO" if kind == "NO" else ("BYE" if kind == "BYE" else "")
                 self.events.append(["reply", st, "", [], kind])
                 if kind == "NO":
-                    out += b'NO (QUOTA/MAXSIZE) "refused: {2} KiB over the {64} KiB limit"\r\n'
+                    out += NO_WIRES[self.nocode % len(NO_WIRES)]
                 elif kind == "BYE":
                     out += b'BYE "going down"\r\n'
                     return out
@@ -183,6 +195,7 @@ def replay_rename(task):
     d = Double(scripts0, active0, events)
     if fat != "none":
         d.fault[STEP_VERB[fat]] = fkind
+    d.nocode = seed
     rng = random.Random(seed)
     plan = (lambda bts: C_split(bts, rng)) if seed % 3 == 0 else None
     c, s = M.connected_client(d, plan=plan, version=False)
@@ -218,6 +231,7 @@ def replay_session(task):
     for op, a, b, refuse, enc, decor in script:
         if op == "checkscript" and not version:
             continue
+        d.nocode += 1
         d.choice = {"refuse": bool(refuse), "enc": enc if version else "q", "decor": decor}
         events.append(["call", "renamescript_emulated" if (op == "renamescript" and not version) else op, a, b])
         do_call(c, s, events, op, a, b)
@@ -258,7 +272,7 @@ def tlc_rename(tier):
     names = '{"a", "r{2}"}'
     # B3 is the empty script, B4 holds lines that look like status replies, B6 a blank line, B7 exotic line separators
     bodies = '{"B3", "B4", "B7", "B8"}' if tier != "thorough" else '{"B2", "B3", "B4", "B6", "B7", "B8", "B9"}'
-    cfg = ("SPECIFICATION RSpec\nCONSTANTS\n Names = %s\n Bodies = %s\n FaultKinds = {\"NO\", \"BYE\", \"silence\", \"lost\", \"stall\"}\n"
+    cfg = ("SPECIFICATION RSpec\nCONSTANTS\n Names = %s\n Bodies = %s\n FaultKinds = {\"NO\", \"NOSTICKY\", \"BYE\", \"silence\", \"lost\", \"stall\"}\n"
            "INVARIANT InvNoLoss\nINVARIANT InvNoOverwrite\nINVARIANT InvSuccessPost\nINVARIANT InvFailsCleanly\n"
            "INVARIANT EmitRename\nCHECK_DEADLOCK FALSE\n" % (names, bodies))
     out = []
